@@ -255,6 +255,90 @@ def judge_game(ctx, exe, drv, fen, moves, rng, tier):
     return problems
 
 
+def judge_walk(ctx, exe, drv, fen, moves, rng, use_startpos=False):
+    """a random walk over the state-changing commands of the front end with the rules as oracle: whatever mixture of
+    `position` (fresh, shorter, textually extending the previous one), `moves`, `position fen <later position>`,
+    `ucinewgame` and `go` is sent, `printboard` must show the oracle position, `hash` must depend on the position only
+    and `go` must answer a legal move."""
+    line = spec_line(drv, fen, moves)
+    n = len(moves)
+    if len(line) != n + 1 or n < 2:
+        return []
+    base = 'startpos' if use_startpos else f'fen {fen}'
+
+    def P(j):
+        return f'position {base}' + (f' moves {" ".join(moves[:j])}' if j else '')
+    cmds, checks = [], []      # checks: (index of command, kind, oracle index)
+    o = None
+    lastP = None
+    steps = 0
+    while steps < 14:
+        steps += 1
+        kind = rng.choice(['P', 'PX', 'PX', 'M', 'M', 'PF', 'N', 'G'])
+        if o is None or kind == 'N':
+            if o is not None:
+                cmds.append('ucinewgame')
+            j = rng.randrange(0, n + 1)
+            cmds.append(P(j)); o = j; lastP = j
+        elif kind == 'P':
+            j = rng.randrange(0, n + 1)
+            cmds.append(P(j)); o = j; lastP = j
+        elif kind == 'PX':
+            if lastP is None or lastP >= n:
+                continue
+            j = rng.randrange(lastP + 1, n + 1)
+            cmds.append(P(j)); o = j; lastP = j
+        elif kind == 'M':
+            if o >= n:
+                continue
+            j = rng.randrange(o + 1, min(n, o + 3) + 1)
+            cmds.append('moves ' + ' '.join(moves[o:j])); o = j
+        elif kind == 'PF':
+            j = rng.randrange(0, n + 1)
+            cmds.append(f'position fen {line[j][0]}'); o = j; lastP = None
+        elif kind == 'G':
+            cmds.append(f'go depth {rng.choice([1, 2])}')
+            checks.append((len(cmds) - 1, 'go', o))
+            continue
+        cmds.append('printboard'); checks.append((len(cmds) - 1, 'fen', o))
+        if rng.random() < 0.5:
+            cmds.append('hash'); checks.append((len(cmds) - 1, 'hash', o))
+    res, dead, stderr = run_script(exe, cmds)
+    script = '\n'.join(cmds) + '\n'
+    hdr = '# UCI session (random walk over position / moves / ucinewgame / go; feed to `cppdrv uci` or the chessplusplus binary)\n'
+    probs = []
+    if 'ERROR: AddressSanitizer' in stderr or 'runtime error' in stderr:
+        probs.append(('C10', 'sanitizer report in a UCI session', hdr + script + '# stderr: ' + stderr[-600:].replace('\n', ' | ') + '\n'))
+    if dead:
+        probs.append(('C05', 'UCI session: ' + dead, hdr + script))
+        probs.append(('C10', 'UCI session: ' + dead, hdr + script))
+        return probs
+    seen_hash = {}
+    for i, kind, j in checks:
+        c, lines, el = res[i] if i < len(res) else ('', [], None)
+        prev = cmds[i - 1] if i else ''
+        if kind == 'fen':
+            f = fen_of(lines)
+            if f != line[j][0]:
+                why = f'after `{prev}` (command #{i - 1}) the board is `{f}`; the rules give `{line[j][0]}`'
+                probs.append(('C02', why, hdr + script))
+                probs.append(('C16', why, hdr + script))
+                break
+        elif kind == 'hash':
+            h = hex_of(lines)
+            if j in seen_hash and seen_hash[j] != h:
+                probs.append(('C04', f'the same position has key {seen_hash[j]} on one path and {h} after `{cmds[i - 2]}`', hdr + script))
+                break
+            seen_hash[j] = h
+        elif kind == 'go':
+            b = [l.split()[1] for l in lines if l.startswith('bestmove') and len(l.split()) > 1]
+            legal = line[j][1]
+            if legal and (len(b) != 1 or b[0] not in legal):
+                probs.append(('C05', f'`{c}` (command #{i}) answered {b}; the legal moves there are {legal}', hdr + script))
+                break
+    return probs
+
+
 def run(ctx, pid, ngames, maxplies=24):
     """run the sessions, report the problems that belong to property `pid`; returns number of sessions"""
     from concurrent.futures import ThreadPoolExecutor
@@ -269,10 +353,15 @@ def run(ctx, pid, ngames, maxplies=24):
     nrep = 0
     seen = 0
 
+    START = 'rnbqkbnr/pppppppp/8/8/8/8/PPPPPPPP/RNBQKBNR w KQkq - 0 1'
+    walks = [(f, m, random.Random(rng.randrange(1 << 30)), f == START and k % 2 == 0) for k in range(3) for f, m in fixed + games if len(m) >= 2]
+
     def one(j):
+        if len(j) == 4:
+            return judge_walk(ctx, ctx.exe, ctx.drv, j[0], j[1], j[2], j[3])
         return judge_game(ctx, ctx.exe, ctx.drv, j[0], j[1], j[2], ctx.tier)
     with ThreadPoolExecutor(max_workers=max(2, (os.cpu_count() or 4) // 2)) as ex:
-        for probs in ex.map(one, jobs):
+        for probs in ex.map(one, jobs + walks):
             seen += 1
             ctx.cov['evaluations'] += 1
             ctx.count('uci_glue_sessions')
